@@ -2,6 +2,8 @@
 from __future__ import annotations
 
 import copy
+import math
+import operator
 import sys
 
 import numpy as np
@@ -34,7 +36,13 @@ class C18:
     RULE = ("generated occupation lists (len 0-7, occasionally negative entries), index/slice bounds in "
             "[-len-2,len+2], herald dictionaries with shuffled distinct keys (valid and out of range), "
             "label lists with shuffled duplicates, Fock basis sizes N<=5,n<=4, dB values, seeds; a case is "
-            "non-trivial when it has >=2 modes and (for herald cases) >=1 herald; distinct = distinct canonical JSON")
+            "non-trivial when it has >=2 modes and (for herald cases) >=1 herald; distinct = distinct canonical JSON. "
+            "Oracle-only extensions: states built from tuples/iterators, every integer index and every slice form (open bounds, "
+            "negative and non-unit steps) for State and AnnotatedState, operands and arguments left unchanged (+, merge, ==, +=, "
+            "del, slice assignment, lists handed out), herald insertion/removal with State and list arguments in any key order "
+            "and back, dB reference values (10 dB = 0.9) with int / -0.0 / boundary arguments, seeds 0 / numpy ints / integral "
+            "floats / None with unrelated calls and the global numpy generator in between, invalid seeds through "
+            "random_unitary and random_permutation")
     TRUSTED = ["dB conversions and random_unitary/permutation are checked by the Python oracle only (reals/scipy are not executable in the model)"]
     ASSUMPTIONS = ["occupations are Python ints (non-integers only reach State._validate, tested by the malformed stream)",
                    "State(list) aliasing of the caller's own list is outside the State API and not claimed"]
@@ -85,12 +93,14 @@ class C18:
                 if sub < 9:
                     cases.append(dict(kind="fock", N=rng.randint(1, 5), n=rng.randint(0, 4)))
                 elif sub < 18:
-                    cases.append(dict(kind="conv", x=rng.choice([0.0, 1e-9, 0.5, 3.0, 10.0, -3.0, rng.uniform(-40, 40)]),
-                                      l=rng.choice([0.0, 0.5, 1 - 1e-9, rng.random()])))
+                    cases.append(dict(kind="conv", x=rng.choice([0.0, 1e-9, 0.5, 3.0, 10.0, -3.0, rng.uniform(-40, 40), 0, 3, -10, 20,
+                                                                 -0.0, 10 * math.log10(2)]),
+                                      l=rng.choice([0.0, 0.5, 1 - 1e-9, rng.random(), 0, -0.0, 0.9, 1e-12, 0.75])))
                 else:
                     cases.append(dict(kind="random", N=rng.randint(1, 6),
                                       seed=rng.choice([0, 0, 1, 2**31 - 1, rng.randint(0, 10**6), rng.randint(0, 10**6)]),
-                                      bad=rng.choice([None, None, "x", 1.5, True, 2.0])))
+                                      bad=rng.choice([None, None, "x", 1.5, True, 2.0, False, -0.5, "list"]),
+                                      other=rng.choice([None, 0, 1, rng.randint(0, 10**6)])))
         return cases
 
     # -------------------------------------------------------------------- impl
@@ -191,6 +201,38 @@ class C18:
                     return f"State[{x}:{y}:{st}] = {got.s if isinstance(got, lw.State) else got!r} differs from the list slice {c['s'][slice(x, y, st)]}"
             if s.n_photons != sum(c["s"]) or s.n_modes != len(c["s"]) or list(s) != c["s"]:
                 return "counts/iteration inconsistent"
+            if len(s) != len(c["s"]) or s.s != c["s"]:
+                return "len()/.s inconsistent with the occupations"
+            # equality is symmetric, and a state built from another iterable of the same occupations is the same value
+            if (t == s) != (c["s"] == c["t"]) or (s != t) != (c["s"] != c["t"]):
+                return "State equality is not symmetric / != is not the negation of =="
+            for alt in (lw.State(tuple(c["s"])), lw.State(iter(list(c["s"]))), lw.State(list(c["s"]))[:], s + lw.State([])):
+                if alt != s or s != alt or hash(alt) != hash(s) or alt.s != c["s"]:
+                    return "a State built from the same occupations (tuple / iterator / full slice / + empty) is not equal to the State built from the list"
+            if c["s"] != c["t"] and len({s, t}) != 2:
+                return "different states collapse in a set"
+            if len({s, lw.State(list(c["s"]))}) != 1:
+                return "equal states do not collapse in a set"
+            # integer indexing = list indexing, at every position
+            n_ = len(c["s"])
+            for i in range(-n_ - 1, n_ + 1):
+                try:
+                    got = s[i]
+                except IndexError:
+                    got = "IndexError"
+                if got != (c["s"][i] if -n_ <= i < n_ else "IndexError"):
+                    return f"State[{i}] = {got!r} differs from list indexing"
+            # + and merge give the documented values (reference from the case)
+            if (s + t).s != c["s"] + c["t"] or (t + s).s != c["t"] + c["s"]:
+                return "+ is not the concatenation of the occupation lists"
+            if (s + t + u).n_photons != sum(c["s"]) + sum(c["t"]) + sum(c["u"]):
+                return "photon number of a concatenation is not the sum"
+            if len(c["s"]) != len(c["t"]):
+                try:
+                    s.merge(t)
+                    return "merge accepted states of different length"
+                except ValueError:
+                    pass
             # immutability through the API
             before = list(c["s"])
             h0, str0 = hash(s), str(s)
@@ -209,6 +251,28 @@ class C18:
             sl = s[0:len(before)]
             if s.s != before or sl.s != before or (hash(s), str(s)) != (h0, str0):
                 return "State changed through its API"
+            # ... nor through values derived from it, augmented assignment, deletion or slice assignment
+            s_alias = s
+            s_alias += t                      # no in-place concatenation: s itself must stay what it was
+            der = [s + t, s[:], s[::-1]] + ([s.merge(t)] if len(c["s"]) == len(c["t"]) else [])
+            for d in der:
+                x = d.s
+                x.append(5)
+                if x:
+                    x[0] = 9
+            for f in (lambda: operator.setitem(s, slice(0, 1), [5]), lambda: operator.delitem(s, 0), lambda: delattr(s, "s"),
+                      lambda: setattr(s, "n_photons", 3)):
+                try:
+                    f()
+                except Exception:  # noqa: BLE001   (how it is refused is not claimed, only that nothing changes)
+                    pass
+            if s.s != before or list(s) != before or (hash(s), str(s)) != (h0, str0) or s.n_photons != sum(before):
+                return "State changed by +=, by editing derived states, or by deletion / slice assignment"
+            # the operands of ==, +, merge and the slices are left alone as well
+            if t.s != c["t"] or u.s != c["u"] or t.n_photons != sum(c["t"]) or hash(t) != hash(lw.State(list(c["t"]))):
+                return "an operand of + / merge / == was modified"
+            if (s + t).s != c["s"] + c["t"]:
+                return "+ gives a different value the second time"
             return None
         if k == "herald":
             her = {a: b for a, b in c["her"]}
@@ -224,12 +288,54 @@ class C18:
                     return "state entries not kept in order off the herald modes"
                 if removed != {"ok": c["st"]}:
                     return f"remove(add(s)) != s: {removed}"
+                # reference laid out from the case alone
+                exp_full, rest = [], list(c["st"])
+                for i in range(n):
+                    exp_full.append(her[i] if i in her else rest.pop(0))
+                if full != exp_full:
+                    return f"add_heralds_to_state = {full}, expected {exp_full}"
+                for as_state in (False, True):
+                    st = lw.State(list(c["st"])) if as_state else list(c["st"])
+                    h2 = dict(her)
+                    full2 = add_heralds_to_state(st, h2)
+                    if list(full2) != exp_full:
+                        return f"add_heralds_to_state with a {'State' if as_state else 'list'} argument gives {list(full2)}, expected {exp_full}"
+                    if list(st) != c["st"] or h2 != her or list(h2) != list(her):
+                        return "add_heralds_to_state modified its arguments"
+                    if as_state:          # what is handed back must not be the State's own list
+                        full2.append(9)
+                        full2[0] = 7
+                        if st.s != c["st"] or list(st) != c["st"]:
+                            return "the list returned by add_heralds_to_state is the State's own storage"
+                # removal: list or State, herald modes in any order, arguments left alone; and the way back
+                for keys in (list(her), sorted(her), sorted(her, reverse=True)):
+                    for as_state in (False, True):
+                        form = lw.State(list(exp_full)) if as_state else list(exp_full)
+                        k2 = list(keys)
+                        back = remove_heralds_from_state(form, k2)
+                        if list(back) != c["st"]:
+                            return f"remove_heralds_from_state({exp_full}, {keys}) = {list(back)}, expected {c['st']}"
+                        if list(form) != exp_full or k2 != keys:
+                            return "remove_heralds_from_state modified its arguments"
+                        if as_state:
+                            back.append(3)
+                            if form.s != exp_full:
+                                return "the list returned by remove_heralds_from_state is the State's own storage"
+                again = add_heralds_to_state(list(c["st"]), {kk: exp_full[kk] for kk in sorted(her, reverse=True)})
+                if list(again) != exp_full:
+                    return "add(remove(full)) != full"
             return None
         if k == "remove":
             modes = c["modes"]
             if len(set(modes)) == len(modes) and all(m < len(c["st"]) for m in modes):
-                if obs != {"ok": [v for i, v in enumerate(c["st"]) if i not in modes]}:
+                exp = [v for i, v in enumerate(c["st"]) if i not in modes]
+                if obs != {"ok": exp}:
                     return "remove_heralds_from_state does not drop exactly the herald modes"
+                lst, m2 = list(c["st"]), list(modes)
+                if list(remove_heralds_from_state(lst, m2)) != exp:
+                    return "remove_heralds_from_state on a list differs from the result on a State"
+                if lst != c["st"] or m2 != modes:
+                    return "remove_heralds_from_state modified its arguments"
             return None
         if k == "annot":
             a = [list(m) for m in c["a"]]
@@ -247,6 +353,40 @@ class C18:
                 return "annotated counts wrong"
             if len(a) == len(c["b"]) and x.merge(y) != y.merge(x):
                 return "annotated merge not commutative"
+            if (y == x) != same or (x != y) == same:
+                return "annotated equality is not symmetric / != is not its negation"
+            sa_, sb_ = [sorted(m) for m in a], [sorted(m) for m in c["b"]]
+            src = [list(m) for m in c["a"]]
+            AnnotatedState(src)
+            if src != c["a"]:
+                return "constructing an AnnotatedState reordered the caller's label lists"
+            if (x + y).s != sa_ + sb_ or (x + y).n_photons != x.n_photons + y.n_photons or len(x + y) != len(a) + len(c["b"]):
+                return "annotated + is not the concatenation of the label multisets"
+            if len(a) == len(c["b"]):
+                if x.merge(y).s != [sorted(p + q_) for p, q_ in zip(a, c["b"])]:
+                    return "annotated merge is not the mode-wise multiset union"
+            else:
+                try:
+                    x.merge(y)
+                    return "annotated merge accepted states of different length"
+                except ValueError:
+                    pass
+            n_ = len(a)
+            for i in range(-n_ - 1, n_ + 1):
+                try:
+                    got = x[i]
+                except IndexError:
+                    got = "IndexError"
+                if got != (sa_[i] if -n_ <= i < n_ else "IndexError"):
+                    return f"AnnotatedState[{i}] = {got!r} differs from list indexing"
+            for p_, q_, st_ in ((c["sa"], c["sb"], None), (None, None, -1), (c["sa"], None, -1), (None, c["sb"], -1), (c["sa"], c["sb"], -1),
+                                (None, None, 2), (None, None, -2), (c["sb"], c["sa"], -1), (None, -n_ - 1, -1)):
+                got = x[slice(p_, q_, st_)]
+                if not isinstance(got, AnnotatedState) or got.s != sa_[slice(p_, q_, st_)]:
+                    return (f"AnnotatedState[{p_}:{q_}:{st_}] = {got.s if isinstance(got, AnnotatedState) else got!r} differs from the "
+                            f"list slice {sa_[slice(p_, q_, st_)]}")
+            if len(x) != n_ or [list(m) for m in x] != sa_:
+                return "annotated len()/iteration inconsistent"
             # immutability, including through __getitem__ and iteration
             # (the reference value is built from the case itself, never from an object handed out by the
             #  state: an aliased inner list would change together with the state and hide the mutation)
@@ -279,6 +419,17 @@ class C18:
                     pass
             if x.s != before:
                 return f"AnnotatedState changed through its API: {before} -> {x.s}"
+            x_alias = x
+            x_alias += y
+            for d in [x + y, x[:], x[::-1]] + ([x.merge(y)] if len(a) == len(c["b"]) else []):
+                for m in d.s:
+                    m.append(66)
+                for m in d:
+                    m.append(66)
+            if x.s != before or (hash(x), str(x), x.n_photons) != (h0, str0, n0):
+                return "AnnotatedState changed by += or by editing states derived from it"
+            if y.s != [sorted(m) for m in c["b"]]:
+                return "an operand of annotated + / merge / == was modified"
             return None
         if k == "fock":
             N, n = c["N"], c["n"]
@@ -298,12 +449,24 @@ class C18:
                 return f"decimal_to_db_loss(db_loss_to_decimal({x})) = {decimal_to_db_loss(d)}"
             if abs(db_loss_to_decimal(decimal_to_db_loss(l)) - l) > 1e-9:
                 return f"db_loss_to_decimal(decimal_to_db_loss({l})) != {l}"
-            for bad in (-0.1, 1.0, 1.5):
+            for bad in (-0.1, 1.0, 1.5, 1, 2, -1, -1e-12, 1 + 1e-12):
                 try:
                     decimal_to_db_loss(bad)
                     return f"decimal_to_db_loss accepted {bad}"
                 except ValueError:
                     pass
+            # the unit itself: 10*log10 of the transmitted power fraction (reference computed from the case)
+            if abs(d - (1 - 10 ** (-abs(x) / 10))) > 1e-9:
+                return f"db_loss_to_decimal({x}) = {d}, expected {1 - 10 ** (-abs(x) / 10)}"
+            if abs(db_loss_to_decimal(-x) - d) > 1e-12:
+                return "db_loss_to_decimal depends on the sign of the dB value"
+            back = decimal_to_db_loss(l)
+            want = -10 * math.log10(1 - l)
+            if not back >= 0 or abs(back - want) > 1e-9 * max(1.0, abs(want)):
+                return f"decimal_to_db_loss({l}) = {back}, expected the positive value {want}"
+            for known_db, known_dec in ((10, 0.9), (20, 0.99), (0, 0.0), (10 * math.log10(2), 0.5)):
+                if abs(db_loss_to_decimal(known_db) - known_dec) > 1e-9 or abs(decimal_to_db_loss(known_dec) - known_db) > 1e-9:
+                    return f"{known_db} dB is not a loss of {known_dec}"
             return None
         if k == "random":
             N, seed = c["N"], c["seed"]
@@ -319,17 +482,43 @@ class C18:
                 return "an integral float seed does not give the matrix of the equal integer seed"
             if not (np.all((p1 == 0) | (p1 == 1)) and np.all(p1.sum(0) == 1) and np.all(p1.sum(1) == 1)):
                 return "random_permutation not a permutation matrix"
+            if p1.shape != (N, N):
+                return "random_permutation has the wrong shape"
+            if not np.array_equal(lw.random_permutation(N, float(seed)), p1):
+                return "an integral float seed does not give the permutation of the equal integer seed"
+            # a history: other seeds / unseeded calls / the global numpy generator in between do not matter
+            other = c.get("other")
+            lw.random_unitary(N + 1, other)
+            lw.random_permutation(N, other)
+            lw.random_unitary(N)
+            np.random.seed(12345)
+            np.random.random(3)
+            if not np.array_equal(lw.random_unitary(N, seed=seed), u1) or not np.array_equal(lw.random_permutation(N, seed=seed), p1):
+                return "seeded results depend on the calls made in between"
+            if not np.array_equal(lw.random_unitary(N, np.int64(seed)), u1) or not np.array_equal(lw.random_permutation(N, np.int64(seed)), p1):
+                return "a numpy integer seed does not give the result of the equal Python integer seed"
+            for un in (lw.random_unitary(N), lw.random_unitary(N, None)):          # unseeded: still valid
+                if un.shape != (N, N) or not np.allclose(un @ un.conj().T, np.eye(N), atol=1e-9):
+                    return "unseeded random_unitary not unitary"
+            pn = lw.random_permutation(N)
+            if pn.shape != (N, N) or not (np.all((pn == 0) | (pn == 1)) and np.all(pn.sum(0) == 1) and np.all(pn.sum(1) == 1)):
+                return "unseeded random_permutation not a permutation matrix"
             bad = c["bad"]
             if bad is not None:
-                if bad == 2.0:
+                if bad == "list":
+                    bad = [1]
+                if bad == 2.0 and not isinstance(bad, bool):
                     if process_random_seed(bad) != 2:
                         return "integral float seed not accepted"
+                    if N >= 2 and not np.array_equal(lw.random_unitary(N, bad), lw.random_unitary(N, 2)):
+                        return "seed 2.0 does not give the matrix of seed 2"
                 else:
-                    try:
-                        process_random_seed(bad)
-                        return f"seed {bad!r} accepted"
-                    except TypeError:
-                        pass
+                    for f in (process_random_seed, lambda b: lw.random_unitary(N, b), lambda b: lw.random_permutation(N, seed=b)):
+                        try:
+                            f(bad)
+                            return f"seed {bad!r} accepted"
+                        except TypeError:
+                            pass
             return None
         return None
 
